@@ -24,7 +24,7 @@ ASSUMPTIONS = ["equivalence of rewritten functions is C01's concern", "name book
 LEVEL_TEXT = ("Static field-coverage and provenance analysis derived from the type definitions: decides for every expression-carrying field of a transition system (including ones added later) that the "
               "system-level transformation reads it and re-points it from its own old value, plus mode/argument wiring of the three entry points. Function equivalence itself is not decided.")
 LEVEL_NOTE = "Structural necessary conditions of behaviour preservation; assumes the expression-level transform is meaning-preserving (C01)."
-TECHNIQUE = "type-derived field-coverage check + def-use provenance rules on rustc HIR facts"
+TECHNIQUE = "type-derived field-coverage check + def-use provenance rules + presence truth tables (a field is yielded iff it is present) on rustc HIR facts"
 
 
 def carriers(c):
